@@ -303,6 +303,30 @@ fn gen_inits() -> Vec<Init> {
         });
         v.push(Init::new(format!("gen:{}", GEN[k].0), bytes, parts, tags, &eager));
     }
+    // files as OTHER producers write them (Python generator, family `multi`): several sheets over one shared-string
+    // table with duplicate and unused entries - an unloaded sheet's indexes must be taken literally
+    let mut k = 0u64;
+    loop {
+        let r = with_py(|py| py.call(json!({"op": "gen", "family": "multi", "index": k}), &[]));
+        if r["ok"] != json!(true) {
+            break;
+        }
+        use base64::Engine;
+        let bytes = match base64::engine::general_purpose::STANDARD.decode(r["b64"].as_str().unwrap_or("")) {
+            Ok(b) => b,
+            Err(_) => break,
+        };
+        let label = r["label"].as_str().unwrap_or("multi").to_string();
+        if let (Ok(_), Ok(eager)) = (load_bytes(&bytes, false), load_bytes(&bytes, true)) {
+            let parts = sheet_parts(&bytes);
+            let n = parts.len();
+            v.push(Init::new(format!("foreign:{}", label), bytes, parts, vec!["gen".to_string(), "foreign-producer".to_string(), format!("foreign:{}", label), format!("sheets:{}", n)], &eager));
+        }
+        k += 1;
+        if k >= r["family_size"].as_u64().unwrap_or(0) {
+            break;
+        }
+    }
     v
 }
 
